@@ -20,6 +20,7 @@ mod seg_suites;
 mod fault;
 mod misc_suites;
 mod alloc;
+mod exp_types;
 
 use report::{Cfg, Report};
 use std::collections::BTreeMap;
@@ -84,6 +85,7 @@ fn main() {
         "seg-random" => seg_suites::suite_seg_random(&cfg, &mut rep),
         "seg-domains" => seg_suites::suite_seg_domains(&cfg, &mut rep),
         "seg-bulk" => seg_suites::suite_seg_bulk(&cfg, &mut rep),
+        "exp-types" => exp_types::suite_exp_types(&cfg, &mut rep),
         "fault" => fault::suite_fault(&cfg, &mut rep),
         "clear-twin" => misc_suites::suite_clear_twin(&cfg, &mut rep),
         "export-size" => misc_suites::suite_export_size(&cfg, &mut rep),
